@@ -23,6 +23,10 @@ inductive Phase where
   | suspAwait        -- started, paused in an `await` / `yield from`
   | suspYield        -- started, paused at a `yield`
   | running          -- on the stack (executing, or executing a callee it awaits)
+  | throwingInner    -- on the stack, relaying a thrown exception to the awaitable it delegates to
+                     -- (`*_await` still shows the delegate)
+  | closingInner     -- executing `close()` / `throw(GeneratorExit)`: closing the awaitable it delegates
+                     -- to (gen_close_iter); CPython marks the frame executing but does not link it
   | closed           -- returned, raised or closed
 deriving Repr, DecidableEq, Inhabited
 
@@ -61,20 +65,28 @@ def expose (k : Kind) (s : St) : Attrs :=
   let frame := s.phase != .closed
   let running := match k with
     | .asyncGen => s.agFlag
-    | _ => s.phase == .running
+    | _ => s.phase == .running || s.phase == .closingInner || s.phase == .throwingInner
   let suspended := s.phase.isSusp
   { frame := frame
     running := running
-    awaiting := s.phase == .suspAwait
+    awaiting := s.phase == .suspAwait || s.phase == .closingInner || s.phase == .throwingInner
     suspended := suspended
     fresh := s.phase == .created
-    onStack := s.phase == .running
+    onStack := s.phase == .running || s.phase == .throwingInner
     inspect := inspectOf running suspended frame }
 
 /-! ### the helpers, as coded -/
 
-/-- `_asyncgen_frame_state(agen)` of the repaired code -/
+/-- `_asyncgen_frame_state(agen)` (Python ≥ 3.12 branch: `ag_suspended` tells suspended from
+    executing; `frame.f_back` is only the fallback for older interpreters, see `agenFrameStateOld`) -/
 def agenFrameState (a : Attrs) : IState :=
+  if !a.frame then .closed
+  else if a.fresh then .created
+  else if a.suspended then .suspended
+  else .running
+
+/-- the first version of the fix (commit 2f3fb0e), and the < 3.12 fallback: `f_back` decides -/
+def agenFrameStateOld (a : Attrs) : IState :=
   if !a.frame then .closed
   else if a.onStack then .running
   else if a.fresh then .created
@@ -126,6 +138,8 @@ def truth : Phase → Verdict
   | .suspAwait => .suspended
   | .suspYield => .suspended
   | .running => .executing
+  | .closingInner => .executing
+  | .throwingInner => .executing
   | .closed => .finished
 
 /-! ### drive operations -/
@@ -152,8 +166,10 @@ deriving Repr, DecidableEq, Inhabited
 
 inductive Op where
   | send | throw | close                 -- on a coroutine / generator-based coroutine
+  | throwX                               -- `throw(GeneratorExit())`
   | newAw (m : AwMode)                   -- `ag.asend(None)` / `ag.athrow(E)` / `ag.aclose()`: a new awaitable
   | awSend | awThrow | awClose           -- on the awaitable currently held (the previous one is abandoned)
+  | awThrowX                             -- `awaitable.throw(GeneratorExit())`
 deriving Repr, DecidableEq, Inhabited
 
 /-- what the body does when it is resumed -/
@@ -166,18 +182,26 @@ def respPhase (k : Kind) : Resp → Phase
   | .yield => if k = .coroutine then .suspAwait else .suspYield   -- a coroutine can only suspend in an await
   | .exit => .closed
 
-/-- Result of one operation: was the body resumed; the state while it ran; the state afterwards. -/
+/-- Result of one operation: was the body resumed; the state while it ran; the state in which the
+    clean-up code of a callee it was delegating to sees it while the operation is delivered
+    (`closingInner` for close()/throw(GeneratorExit) on an object suspended in an await, else the
+    same as `mid`); the state afterwards. -/
 structure Res where
   resumed : Bool
   mid : St
   after : DSt
+  midCleanup : St := mid
 deriving Repr, DecidableEq, Inhabited
 
-def noRun (d : DSt) : Res := ⟨false, d.st, d⟩
+def noRun (d : DSt) : Res := ⟨false, d.st, d, d.st⟩
+
+/-- mark an operation as one that closes the delegate first -/
+def closing (d : DSt) (x : Res) : Res :=
+  if x.resumed && d.st.phase == .suspAwait then { x with midCleanup := ⟨.closingInner, x.mid.agFlag⟩ } else x
 
 /-- resume a coroutine / generator (flag untouched) -/
 def resumePlain (k : Kind) (d : DSt) (r : Resp) : Res :=
-  ⟨true, ⟨.running, d.st.agFlag⟩, { d with st := ⟨respPhase k r, d.st.agFlag⟩ }⟩
+  ⟨true, ⟨.running, d.st.agFlag⟩, { d with st := ⟨respPhase k r, d.st.agFlag⟩ }, ⟨.running, d.st.agFlag⟩⟩
 
 /-- resume an async generator from an awaitable.  `flagIn` = the flag while it runs.  On `await`
     the flag and the awaitable stay as they are; on `yield` the flag is cleared; on exit the flag
@@ -188,13 +212,13 @@ def resumeAg (d : DSt) (a : Aw) (flagIn : Bool) (keepOnExit : Bool) (finY finX :
   let mid : St := ⟨.running, flagIn⟩
   let done : Aw := { a with st := .closed }
   match r with
-  | .await => ⟨true, mid, { d with st := ⟨.suspAwait, flagIn⟩, aw := some a }⟩
-  | .yield => ⟨true, mid, { d with st := ⟨.suspYield, false⟩, aw := some (if finY then done else a) }⟩
+  | .await => ⟨true, mid, { d with st := ⟨.suspAwait, flagIn⟩, aw := some a }, mid⟩
+  | .yield => ⟨true, mid, { d with st := ⟨.suspYield, false⟩, aw := some (if finY then done else a) }, mid⟩
   | .exit =>
-    if keepOnExit then ⟨true, mid, { d with st := ⟨.closed, flagIn⟩, aw := some a }⟩
-    else ⟨true, mid, { d with st := ⟨.closed, false⟩, aw := some (if finX then done else a), agClosed := true }⟩
+    if keepOnExit then ⟨true, mid, { d with st := ⟨.closed, flagIn⟩, aw := some a }, mid⟩
+    else ⟨true, mid, { d with st := ⟨.closed, false⟩, aw := some (if finX then done else a), agClosed := true }, mid⟩
 
-def deliver (k : Kind) (d : DSt) (op : Op) (r : Resp) : Res :=
+def deliverBase (k : Kind) (d : DSt) (op : Op) (r : Resp) : Res :=
   match k, op with
   | .asyncGen, .newAw m => noRun { d with aw := some ⟨m, .init⟩ }
   | .asyncGen, .awClose =>
@@ -268,6 +292,28 @@ def deliver (k : Kind) (d : DSt) (op : Op) (r : Resp) : Res :=
     | _ => noRun d
   | _, _ => noRun d
 
+/-- mark an operation as one that throws into the delegate -/
+def throwing (d : DSt) (x : Res) : Res :=
+  if x.resumed && d.st.phase == .suspAwait then { x with midCleanup := ⟨.throwingInner, x.mid.agFlag⟩ } else x
+
+/-- does `send` on the awaitable held deliver an exception (first send on athrow()/aclose()) -/
+def sendThrows (d : DSt) : Bool :=
+  match d.aw with
+  | some a => a.mode != .asend && a.st == .init
+  | none => false
+
+/-- one drive operation.  `throw(GeneratorExit)` moves the phases exactly like `throw(E)`; it and
+    `close()` differ from the others in how a delegate's clean-up code sees the object. -/
+def deliver (k : Kind) (d : DSt) (op : Op) (r : Resp) : Res :=
+  match op with
+  | .close => closing d (deliverBase k d .close r)
+  | .throwX => closing d (deliverBase k d .throw r)
+  | .awThrowX => closing d (deliverBase k d .awThrow r)
+  | .throw => throwing d (deliverBase k d .throw r)
+  | .awThrow => throwing d (deliverBase k d .awThrow r)
+  | .awSend => if sendThrows d then throwing d (deliverBase k d .awSend r) else deliverBase k d .awSend r
+  | op => deliverBase k d op r
+
 def initial : DSt := { st := ⟨.created, false⟩ }
 
 /-- all states visited by a history: after every op, and the `mid` state of every op that resumed
@@ -276,6 +322,6 @@ def visited (k : Kind) : DSt → List (Op × Resp) → List St
   | d, [] => [d.st]
   | d, (op, r) :: rest =>
     let x := deliver k d op r
-    d.st :: (if x.resumed then [x.mid] else []) ++ visited k x.after rest
+    d.st :: (if x.resumed then [x.mid, x.midCleanup] else []) ++ visited k x.after rest
 
 end Asynkit.CoroState
